@@ -120,6 +120,18 @@ K2 == Cat(K1, Cat(Binary(K1, K0), Binary(K0, K1)))
 KindBodies == IF Depth = 2 THEN K2 ELSE K1
 KindGrammars == Map1(KindBodies, LAMBDA e : G(<<Ru("M", e), KA, KB, KC, KD, KK, KE>>))
 
+\* alias rules (the body is a single rule reference) and recursion that passes through them
+AlA == Ru("A", Rf("B"))
+AlC == Ru("C", Rf("A"))
+AlB(X) == Ru("B", Sq(<<Ta, Op(As("r", "=", Rf(X), NoSep, FALSE))>>))
+AL0 == <<Rf("A"), Rf("B"), Rf("C"), As("w", "=", Rf("A"), NoSep, FALSE), As("w", "=", Rf("C"), NoSep, FALSE),
+         As("w", "+=", Rf("A"), NoSep, FALSE)>>
+AL1 == Cat(AL0, Map2(AL0, <<Tb>>, LAMBDA p, q : Sq(<<p, q>>)))
+AliasGrammars == Flat(<< Map1(AL1, LAMBDA e : G(<<Ru("M", e), AlA, AlB("A"), AlC>>)),
+                         Map1(AL1, LAMBDA e : G(<<Ru("M", e), AlA, AlB("C"), AlC>>)),
+                         Map1(AL1, LAMBDA e : G(<<Ru("M", e), AlA, AlB("M"), AlC>>)),
+                         Map1(AL1, LAMBDA e : G(<<Ru("M", e), AlC, AlB("B"), AlA>>)) >>)
+
 \* whitespace modes: M over N (noskipws), W (ws=' '), P (plain), with eolterm repetitions and a Comment rule
 MN == RuM("N", Sq(<<Ta, Tb>>), "off", <<>>)
 MW == RuM("W", Sq(<<Ta, Tb>>), "inherit", <<SP>>)
@@ -153,6 +165,7 @@ Grammars == CASE Family = "ops" -> OpsGrammars
               [] Family = "asg" -> AsgGrammars
               [] Family = "asg2" -> Asg2Grammars
               [] Family = "kinds" -> KindGrammars
+              [] Family = "alias" -> AliasGrammars
               [] Family = "mods" -> ModGrammars
               [] Family \in {"icase", "kwd"} -> LitGrammars
 
@@ -164,6 +177,7 @@ Strings(A, n) == IF n = 0 THEN << <<>> >>
                           L == SelectSeq(P, LAMBDA s : Len(s) = n-1)
                       IN P \o Map2(L, A, LAMBDA s, ch : Append(s, ch))
 Inputs == CASE Family = "ops" -> Strings(<<a, b, SP>>, 4)
+            [] Family = "alias" -> Strings(<<a, b, SP>>, 5)
             [] Family = "asg" -> Strings(<<a, b, 49, SP, 44>>, 4)
             [] Family = "asg2" -> Strings(<<a, b, 49, 48, SP>>, 4)
             [] Family = "kinds" -> Strings(<<a, b, 49, SP>>, LenCap(5))
